@@ -101,6 +101,14 @@ def main():
         for c in h.classes:
             cname, cpart = (c if isinstance(c, (tuple, list)) else (c, parts[0]))
             jobs.append((h, "class:" + cname, cpart, h.twin_budget.get(tier, 25)))
+    # thorough tier: keep the property's total wall time near XV_THOROUGH_WALL seconds (default 15 min) by capping
+    # the per-analysis budget to what the worker pool can absorb (stated in the evidence as the budget used)
+    if tier == "thorough":
+        target = float(os.environ.get("XV_THOROUGH_WALL", "900"))
+        mains = [j for j in jobs if j[1] == "main"]
+        if mains:
+            cap = max(60.0, target * a.jobs / len(mains))
+            jobs = [(h, m, p, min(b, cap) if m == "main" else b) for (h, m, p, b) in jobs]
     # permute scheduling only (VERIF_SEED never changes what is analysed)
     if seed:
         import random
